@@ -1490,6 +1490,27 @@ class Lowerer:
             if name in ('max', 'fmax'):
                 return ('cond', t, ('bin', BOOL, '<', a, b), b, a)
             return ('cond', t, ('bin', BOOL, '<', b, a), b, a)
+        # further <cmath>/<algorithm> functions, desugared into the operations the two back ends already know (over the reals
+        # these are the functions' definitions; bit-level differences of hypot/fma from the spelled-out expression are not modelled)
+        if name in ('isnan', 'isinf', 'isfinite') and len(args) == 1:
+            # classification predicates stay library calls: over the reals every value is finite and not NaN (REAL obligations
+            # exclude overflow by assumption), bit-precisely they are CBMC's own predicates
+            self.cur.libs.add(name)
+            return ('lib', BOOL, name, [self.rv(args[0])])
+        if name == 'clamp' and len(args) == 3 and t[0] in ('f', 'i'):
+            v, lo, hi = self.rv(args[0]), self.rv(args[1]), self.rv(args[2])
+            return ('cond', t, ('bin', BOOL, '<', v, lo), lo, ('cond', t, ('bin', BOOL, '<', hi, v), hi, v))
+        if name in ('hypot', 'hypotf', 'hypotl') and len(args) == 2 and t[0] == 'f':
+            self.cur.libs.add('hypot')
+            return ('lib', t, 'hypot', [self.rv(args[0]), self.rv(args[1])])
+        if name in ('fma', 'fmaf', 'fmal') and len(args) == 3 and t[0] == 'f':
+            a, b, c = self.rv(args[0]), self.rv(args[1]), self.rv(args[2])
+            return ('bin', t, '+', ('bin', t, '*', a, b), c)
+        if name in ('copysign', 'copysignf', 'copysignl') and len(args) == 2 and t[0] == 'f':
+            a, b = self.rv(args[0]), self.rv(args[1])
+            self.cur.libs.add('abs')
+            mag = ('lib', t, 'abs', [a])
+            return ('cond', t, ('bin', BOOL, '<', b, ('const', t, 0)), ('un', t, '-', mag), mag)
         if name in self.MATH1 and len(args) == 1:
             a = self.rv(args[0])
             base = {'sqrtf': 'sqrt', 'sqrtl': 'sqrt', 'acosf': 'acos', 'acosl': 'acos', 'fabs': 'abs'}.get(name, name)
